@@ -145,7 +145,9 @@ def bridge_text(enums):
         lines.append("    " + enum_text(name, spec))
         # one method per enum: `self`, a parameter and the return value are the three use sites where a backend
         # converts to / from the native integer (Dart emits those conversions at the use site only)
-        lines.append("    impl %s { pub fn f(self, o: %s) -> %s { let _ = self; o } }" % (name, name, name))
+        # (JS only) a second method returns the enum inside an Option: the value then reaches JS through wasm memory
+        lines.append("    impl %s { pub fn f(self, o: %s) -> %s { let _ = self; o } #[diplomat::attr(not(js), disable)] pub fn g(self) -> Option<%s> { Some(self) } }"
+                     % (name, name, name, name))
     lines.append("}")
     return "\n".join(lines) + "\n"
 
@@ -385,13 +387,20 @@ def observe_cpp(b, out, enums, backend="cpp"):
 # JS
 
 JS_STUB = """// stub of the wasm module: every export is a function recording its arguments and answering ctl.ret
-export const ctl = { ret: 0, calls: [] };
+export const ctl = { ret: 0, calls: [], mem: null, next: 1024 };
 const memory = new WebAssembly.Memory({ initial: 1 });
 const wasm = new Proxy({}, {
   get(t, p) {
     if (p === "memory") return memory;
     if (p === "then") return undefined;
-    return (...args) => { ctl.calls.push([String(p), args]); return ctl.ret; };
+    if (p === "diplomat_alloc") return (size, align) => { const a = Math.max(1, align); const q = Math.ceil(ctl.next / a) * a; ctl.next = q + Math.max(1, size); if (ctl.next > 60000) ctl.next = 1024; return q; };
+    if (p === "diplomat_free") return () => {};
+    return (...args) => {
+      ctl.calls.push([String(p), args]);
+      // a method returning Option<Enum>: Rust writes the i32 discriminant and the is_ok flag into the receive buffer
+      if (ctl.mem !== null && String(p).endsWith("_g")) { const dv = new DataView(memory.buffer); dv.setInt32(args[0], ctl.mem, true); dv.setUint8(args[0] + 4, 1); return undefined; }
+      return ctl.ret;
+    };
   },
 });
 export default wasm;
@@ -428,6 +437,10 @@ for (const [name, vals] of spec) {
       r.ret = nameOf(E, names, y);
       r.ret_value = (y === undefined || y === null) ? null : y.value;
     } catch (e) { r.call_err = String(e); }
+    // through memory: g() -> Option<E>, the export writes n and is_ok = 1 into the receive buffer
+    try { ctl.calls = []; ctl.mem = n; const z = E[names[0]].g(); r.mem = nameOf(E, names, z); r.mem_value = (z === undefined || z === null) ? null : z.value; }
+    catch (e) { r.mem_err = String(e); }
+    ctl.mem = null;
     // self position: f(self = V, o = V0)
     try { ctl.calls = []; ctl.ret = vals[0]; E[V].f(E[names[0]]); r.self_call = ctl.calls; } catch (e) { r.self_call_err = String(e); }
     o.variants.push(r);
@@ -751,8 +764,10 @@ def judge(b):
                     add(name, "js", "to-ffi", i, r.get("defined") and all(v == n for v in to_obs.values()), n, to_obs)
                     from_obs = {"ctor": r.get("from", r.get("from_err")), "ctor.value": r.get("from_value"),
                                 "method": r.get("ret", r.get("call_err")), "method.value": r.get("ret_value"),
-                                "own.value": r.get("own_value", r.get("own_value_err")), "fromValue(name)": r.get("by_name", r.get("by_name_err"))}
+                                "own.value": r.get("own_value", r.get("own_value_err")), "fromValue(name)": r.get("by_name", r.get("by_name_err")),
+                                "Option<E> return (read from memory)": r.get("mem", r.get("mem_err")), "Option<E>.value": r.get("mem_value")}
                     ok = (from_obs["ctor"] == [vn[i]] and from_obs["ctor.value"] == vn[i] and from_obs["method"] == [vn[i]]
+                          and from_obs["Option<E> return (read from memory)"] == [vn[i]] and from_obs["Option<E>.value"] == vn[i]
                           and from_obs["method.value"] == vn[i] and from_obs["own.value"] == vn[i] and from_obs["fromValue(name)"] == [vn[i]])
                     add(name, "js", "from-ffi", i, ok, vn[i], from_obs)
         # Dart
